@@ -90,7 +90,7 @@ def drive(rng, tier):
         ops.append(op)
         outs.append(out)
         if op[0] == "step":
-            if out == Exc(15):
+            if out == Exc(15) or w.says_done:
                 done = True
             elif isinstance(out, list) and len(out) == 5 and out[2]:
                 stats["partial"] += 1
